@@ -14,7 +14,6 @@ type fnInfo struct {
 	ipdom map[*ssa.BasicBlock]*ssa.BasicBlock
 }
 
-
 func (e *Engine) info(fn *ssa.Function) *fnInfo {
 	if fi, ok := e.fnInfos[fn]; ok {
 		return fi
